@@ -119,9 +119,10 @@ class Decimal(SimpleModel):
 
         msl = kwargs.get('max_str_len', None)
         if msl is None:
-            kwargs['max_str_len'] = cls.Attributes.total_digits + 2
+            kwargs['max_str_len'] = cls.Attributes.total_digits + 3
             # + 1 for decimal separator
             # + 1 for negative sign
+            # + 1 for the leading zero of a purely fractional number
 
         else:
             kwargs['max_str_len'] = msl
